@@ -183,6 +183,10 @@ def oracle(sname, find_gaps, entries, m):
         want = {k: 1 for k in distinct}
         if got != want:
             problems.append((f"extended rows encode {sorted(got.items())}, the distinct input pairs are {sorted(distinct)}", "extended-pairs"))
+    # purity across queries: the BPSEQ read again after all other outputs were produced is the same
+    after = [(e.index_, e.sequence, e.pair) for e in m.bpseq.entries]
+    if after != ent or str(m.bpseq) != "\n".join(f"{a} {b} {c}" for a, b, c in ent):
+        problems.append((f"BPSEQ changed after dot-bracket / extended rows were produced: {[(x[0], x[2]) for x in after]} (was {[(x[0], x[2]) for x in ent]})", "bpseq-changed"))
     return problems
 
 
@@ -195,6 +199,11 @@ def body(sname, find_gaps, entries):
     try:
         m = Mapping2D3D(Structure3D(list(residues)), build_pairs(residues, entries), [], bool(find_gaps))
         problems = oracle(sname, bool(find_gaps), entries, m)
+        # the other query order on a fresh mapping gives the same texts
+        m2 = Mapping2D3D(Structure3D(list(residues)), build_pairs(residues, entries), [], bool(find_gaps))
+        second = (m2.extended_dot_bracket, m2.dot_bracket, str(m2.bpseq))
+        if second != (m.extended_dot_bracket, m.dot_bracket, str(m.bpseq)):
+            problems.append(("outputs depend on the order in which they are requested", "query-order"))
     except Exception as e:  # noqa: BLE001
         problems.append((f"exception {type(e).__name__}: {e}", "exception"))
     keys = sorted({f"Mapping2D3D:{k}" for _, k in problems})
